@@ -13,6 +13,10 @@
   Python objects that are shared BY REFERENCE (the running PART/AFIX/RESI object that every atom captures)
   live in an explicit heap (`State.parts/afixes/resis`); an atom stores the *index* of its object. That makes
   the difference between "install a fresh object" (`step`) and "mutate the shared one" (`stepBug`) expressible.
+  `self.frag` / `self.hklf` are kept as `Option` of the number of parameters the FRAG / HKLF line carries, and the
+  parser's tests `if self.frag:` / `… and self.shx.hklf` go through an explicit truth rule (`cmdTruthy`; `stepT`,
+  `mkAtomT`, `runT` take the rule as a parameter), so that the lines are quantified over ALL their forms (bare `FRAG`,
+  bare `HKLF`, …) and the dependence on object truthiness is a theorem, not an accident.
 
   Specification (code independent, no state, no heap): `inForce`, `specAtom`, `specAtoms`, `specElement`,
   `resiSpec`, `spliceSpec`.
@@ -34,9 +38,9 @@ inductive Line where
   | afix (mn : Int)                   -- `AFIX mn …`
   | resi (cls : String) (num : Int)   -- `RESI class number` (decoded, see `resiDecode`)
   | atom (a : AtomLine)               -- a line `is_atom` accepts
-  | frag                              -- `FRAG code a b c α β γ`
+  | frag (np : Nat)                   -- `FRAG code[17] a[1] b[1] c[1] α[90] β[90] γ[90]`, `np` of the 7 parameters written
   | fend
-  | hklf
+  | hklf (np : Nat)                   -- `HKLF n[0] s[1] r11…r33 sm[1] m[0]`, `np` parameters written (0 = bare `HKLF`)
   | fin                               -- `END`
   | other                             -- any other instruction, comment, blank
 deriving DecidableEq, Repr
@@ -76,8 +80,8 @@ structure State where
   part : Nat              -- self.part  (reference)
   afix : Option Nat       -- self.afix
   resi : Nat              -- self.resi
-  frag : Bool             -- self.frag is set
-  hklf : Bool             -- self.hklf is set
+  frag : Option Nat       -- self.frag: `None` or the FRAG object (what matters of it: how many parameters it has)
+  hklf : Option Nat       -- self.hklf: `None` or the HKLF object
   ended : Bool            -- self.end
   atoms : List AtomRec    -- self.atoms.all_atoms
 deriving Repr
@@ -85,7 +89,7 @@ deriving Repr
 /-- `Shelxfile.__init__`: `self.part = PART 0`, `self.resi = RESI 0`, `self.afix = None` -/
 def init : State :=
   { parts := [⟨0, 11⟩], afixes := [], resis := [⟨"", 0⟩], part := 0, afix := none, resi := 0,
-    frag := false, hklf := false, ended := false, atoms := [] }
+    frag := none, hklf := none, ended := false, atoms := [] }
 
 /-- `uvals = [0.0]*6; for n, u in enumerate(atline[6:12]): uvals[n] = float(u)` -/
 def pad6 (u : List Rat) : List Rat :=
@@ -100,15 +104,37 @@ def peakShaped (uv : List Rat) : Bool :=
   | _ :: h :: u3 :: _ => decide (absR h > 0) && decide (absR u3 < 1 / 1000000)
   | _ => false
 
+/-! The parser never asks "is `self.frag` / `self.hklf` set?" but "is it *true*?" (`if self.frag:`,
+    `if not self.frag:`, `… and self.shx.hklf`). The truth value of a Python object is `__bool__()` if the class
+    defines it, else `__len__() != 0` if it defines that, else `True`. `FRAG` and `HKLF` are plain `Command`
+    subclasses with neither method, so every instance is true whatever the line carries: `cmdTruthy`.
+    The functions below take the truth rule as a parameter `t` (number of written parameters ↦ truth value), so that
+    the dependence of the property on it is a theorem (`truthiness_needed_frag/_hklf` in ShelxProps/C03.lean:
+    any rule that makes some form of the instruction false loses the property on that form — e.g. `lenTruthy`,
+    a `Command.__len__` that counts the parameters, on the bare `FRAG` / `HKLF`). -/
+
+/-- the truth value of a FRAG / HKLF object in the code as it is: no `__bool__`, no `__len__` -/
+def cmdTruthy (_np : Nat) : Bool := true
+
+/-- what `Command.__len__ = len(spline) - 1` would make of it (not the code; used for the witness theorems) -/
+def lenTruthy (np : Nat) : Bool := decide (np > 0)
+
+/-- `if self.x:` for `self.x : Optional[Command]` — `None` is false -/
+def optTruthy (t : Nat → Bool) : Option Nat → Bool
+  | none => false
+  | some np => t np
+
 /-- `Atom.parse_line`: occupation code from the PART in force unless that is the default 11, Q-peak rule.
     (`s.parts[s.part]?` cannot be `none`: `context_invariant` proves `s.part < s.parts.length`.) -/
-def mkAtom (s : State) (a : AtomLine) : AtomRec :=
+def mkAtomT (t : Nat → Bool) (s : State) (a : AtomLine) : AtomRec :=
   let uv := pad6 a.u
   let sof := match s.parts[s.part]? with
     | some p => if p.sof ≠ 11 then p.sof else a.sof
     | none => a.sof
   { tag := a.tag, sfac := a.sfac, sof := sof, uvals := uv, part := s.part, afix := s.afix, resi := s.resi,
-    qpeak := (peakShaped uv && s.hklf) || s.ended }
+    qpeak := (peakShaped uv && optTruthy t s.hklf) || s.ended }
+
+def mkAtom (s : State) (a : AtomLine) : AtomRec := mkAtomT cmdTruthy s a
 
 /-- HKLF / END after the fixes: *new* `RESI 0`, `PART 0`, `AFIX 0` objects become current -/
 def resetCtx (s : State) : State :=
@@ -116,17 +142,22 @@ def resetCtx (s : State) : State :=
            parts := s.parts ++ [⟨0, 11⟩], part := s.parts.length,
            afixes := s.afixes ++ [⟨0⟩], afix := some s.afixes.length }
 
-/-- one iteration of `_parse_cards` -/
-def step (s : State) : Line → State
+/-- one iteration of `_parse_cards`, under the truth rule `t` for FRAG / HKLF objects -/
+def stepT (t : Nat → Bool) (s : State) : Line → State
   | .resi c n => { s with resis := s.resis ++ [⟨c, n⟩], resi := s.resis.length }
   | .part n f => { s with parts := s.parts ++ [⟨n, f⟩], part := s.parts.length }
   | .afix mn => { s with afixes := s.afixes ++ [⟨mn⟩], afix := some s.afixes.length }
-  | .atom a => if s.frag then s else { s with atoms := s.atoms ++ [mkAtom s a] }
-  | .frag => { s with frag := true }
-  | .fend => { s with frag := false }      -- (FEND without FRAG raises in Python: excluded by `fragOK`)
-  | .hklf => { resetCtx s with hklf := true }
+  | .atom a => if optTruthy t s.frag then s else { s with atoms := s.atoms ++ [mkAtomT t s a] }
+  | .frag np => { s with frag := some np }
+  | .fend => { s with frag := none }       -- (FEND while `self.frag` is false raises in Python: excluded by `lineOK`)
+  | .hklf np => { resetCtx s with hklf := some np }
   | .fin => { resetCtx s with ended := true }
   | .other => s
+
+/-- one iteration of `_parse_cards` (the code as it is) -/
+def step (s : State) (l : Line) : State := stepT cmdTruthy s l
+
+def runT (t : Nat → Bool) (file : List Line) : State := file.foldl (stepT t) init
 
 def run (file : List Line) : State := file.foldl step init
 
@@ -159,7 +190,7 @@ def barrierBug (s : State) : State × Bool :=
   | none => (s1, true)
 
 def stepBug (s : State) : Line → State
-  | .hklf => let (s', chain) := barrierBug s; if chain then { s' with hklf := true } else s'
+  | .hklf np => let (s', chain) := barrierBug s; if chain then { s' with hklf := some np } else s'
   | .fin => let (s', chain) := barrierBug s; if chain then { s' with ended := true } else s'
   | .atom a => { s with atoms := s.atoms ++ [mkAtom s a] }
   | l => step s l
@@ -198,7 +229,7 @@ def observe (s : State) : List (Option AtomObs) := s.atoms.map (observeAtom s)
 
 /-! ### specification -/
 
-def isHklf : Line → Bool | .hklf => true | _ => false
+def isHklf : Line → Bool | .hklf _ => true | _ => false
 def isFin : Line → Bool | .fin => true | _ => false
 /-- HKLF and END end every PART, AFIX and residue -/
 def isBarrier (l : Line) : Bool := isHklf l || isFin l
@@ -222,7 +253,7 @@ def specResi (before : List Line) : ResiObj := inForce selResi ⟨"", 0⟩ befor
 /-- inside a `FRAG … FEND` block: the nearest FRAG/FEND above is a FRAG -/
 def inFrag : List Line → Bool
   | [] => false
-  | .frag :: _ => true
+  | .frag _ :: _ => true
   | .fend :: _ => false
   | _ :: ls => inFrag ls
 
